@@ -788,6 +788,17 @@ def c14():
             if len(ints) == len(o):
                 st = sorted(o, key=lambda x: x["k"])
                 out.append(R("{{ o | sort: 'k' | map: 't' | join: '' }}", {"output": "".join(x["t"] for x in st)}, d, "sort by property is stable"))
+    # beyond the 20-element threshold where the standard sort switches algorithm: permutation, order, stability
+    import random
+    rnd = random.Random(7)
+    for n in (21, 33, 60):
+        o = [{"k": rnd.randrange(3), "id": i} for i in range(n)]
+        st = sorted(o, key=lambda x: x["k"])
+        out.append(R("{{ o | sort: 'k' | map: 'id' | join: ',' }}", {"output": ",".join(str(x["id"]) for x in st)}, {"o": o}, "sort by property is stable for long arrays too"))
+        a = [rnd.randrange(10) if rnd.random() > 0.2 else None for _ in range(n)]
+        nn = [x for x in a if x is not None]
+        out.append(R("{% assign r = a | sort %}" + SHOW, {"output": _show(sorted(nn) + [None] * (n - len(nn)))}, {"a": a}, "sort of a long array: non-decreasing, nil last, a permutation"))
+        out.append(R("{% assign r = a | uniq %}" + SHOW, {"output": _show(list(dict.fromkeys(a)))}, {"a": a}))
     return out
 
 
